@@ -317,6 +317,7 @@ next_ait(vbi_decoder *vbi, int pgno, int subno, cache_page **mvtp)
 	for (i = 0; i < 8; i++) {
 		if (PAGE_FUNCTION_AIT == vbi->cn->btt_link[i].function) {
 			cache_page *vtp;
+			vbi_bool vtp_used = FALSE;
 
 			vtp = _vbi_cache_get_page
 				(vbi->ca, vbi->cn,
@@ -350,11 +351,20 @@ next_ait(vbi_decoder *vbi, int pgno, int subno, cache_page **mvtp)
 				mpgno = ait->link.pgno;
 				msubno = ait->link.subno;
 
-				if (NULL != *mvtp)
-					cache_page_unref (*mvtp);
+				/* Hand the reference we got above to the
+				   caller, once. */
+				if (!vtp_used) {
+					if (NULL != *mvtp)
+						cache_page_unref (*mvtp);
 
-				*mvtp = vtp;
+					*mvtp = vtp;
+					vtp_used = TRUE;
+				}
 			}
+
+			/* Nothing found on this page. */
+			if (!vtp_used)
+				cache_page_unref (vtp);
 		}
 	}
 
